@@ -636,6 +636,25 @@ static cfg_value_t *cfg_addval(cfg_opt_t *opt)
 	return opt->values[opt->nvalues++];
 }
 
+/* Take a value slot out of an option again: used when the section that
+ * was to live in it could not be built, so that no NULL or freed
+ * section stays behind in a counted slot. */
+static void cfg_dropval(cfg_opt_t *opt, cfg_value_t *val)
+{
+	unsigned int i;
+
+	for (i = 0; i < opt->nvalues; i++) {
+		if (opt->values[i] != val)
+			continue;
+
+		free(val);
+		for (; i + 1 < opt->nvalues; i++)
+			opt->values[i] = opt->values[i + 1];
+		opt->nvalues--;
+		return;
+	}
+}
+
 static cfg_opt_t *cfg_addopt(cfg_t *cfg, char *key)
 {
 	int num = cfg_num(cfg);
@@ -1069,12 +1088,15 @@ DLLIMPORT cfg_value_t *cfg_setopt(cfg_t *cfg, cfg_opt_t *opt, const char *value)
 				cfg_free(val->section);
 			}
 			val->section = calloc(1, sizeof(cfg_t));
-			if (!val->section)
+			if (!val->section) {
+				cfg_dropval(opt, val);
 				return NULL;
+			}
 
 			val->section->name = strdup(opt->name);
 			if (!val->section->name) {
 				free(val->section);
+				cfg_dropval(opt, val);
 				return NULL;
 			}
 
@@ -1086,6 +1108,7 @@ DLLIMPORT cfg_value_t *cfg_setopt(cfg_t *cfg, cfg_opt_t *opt, const char *value)
 			if (cfg->filename && !val->section->filename) {
 				free(val->section->name);
 				free(val->section);
+				cfg_dropval(opt, val);
 				return NULL;
 			}
 
@@ -1096,6 +1119,7 @@ DLLIMPORT cfg_value_t *cfg_setopt(cfg_t *cfg, cfg_opt_t *opt, const char *value)
 				free(val->section->filename);
 				free(val->section->name);
 				free(val->section);
+				cfg_dropval(opt, val);
 				return NULL;
 			}
 
@@ -1107,6 +1131,7 @@ DLLIMPORT cfg_value_t *cfg_setopt(cfg_t *cfg, cfg_opt_t *opt, const char *value)
 					free(val->section->filename);
 				free(val->section->name);
 				free(val->section);
+				cfg_dropval(opt, val);
 				return NULL;
 			}
 
